@@ -831,6 +831,11 @@ func gen(g *hx.Gen) {
 			g.Emit(chkLine(fam, gr, g6, cls))
 		}
 	}
+	// corpus: the three inputs on which CanonicalIsomorphFull panicked before a4bdb37 (KNOWN_FINDINGS: fixed a4bdb37;
+	// currentBest[:len(op.value)] beyond its capacity after a cut-off inside splitBin, found through the search model)
+	emit("corpus", cx.MustGraph6("KOD[fB~~qOCO"), "0,1,2,3,4,5,6,7,8,9|10,11")
+	emit("corpus", cx.MustGraph6("K`WkCf~~ogGO"), "0,1,2,3,4,5,6,7|8,9|10,11")
+	emit("corpus", cx.MustGraph6("LaGQO]CgN~~}?g"), "0,1,2,3,4,5,6,7,8,9,10,11|12")
 	// corpus: failures of the pinned tree with vertex classes (KNOWN_FINDINGS: fixed 508837e, 133395a, 4b905ab)
 	emit("corpus", cx.PathG(3), "1|0,2 0|1,2 2,1|0 2|1|0")
 	emit("corpus", cx.PathG(4), "3,0|2,1 0|1|2,3 1,3|0,2")
